@@ -23,7 +23,7 @@ def run(prop, path):
         rt = os.path.join(os.path.dirname(os.path.dirname(os.path.abspath(__file__))), "harness", "rt")
         open(os.path.join(root, "Cargo.toml"), "w").write(corpus_rt.CARGO_TOML % {"rt": rt, "repo": REPO})
         shutil.copy(os.path.join(REPO, "Cargo.lock"), os.path.join(root, "Cargo.lock"))
-        open(os.path.join(root, ".cargo", "config.toml"), "w").write("[net]\noffline = true\n[build]\nrustflags = [\"--cap-lints\", \"allow\"]\n")
+        open(os.path.join(root, ".cargo", "config.toml"), "w").write("[net]\noffline = true\n")
         src = ["#![allow(warnings)]"] + r["rust"].split("\n")
         n = len(src)
         src += [f"fn main() {{ ::rt::main(vec![c{cid}::g::case]); }}"]
@@ -62,7 +62,7 @@ def run(prop, path):
     open(os.path.join(root, "Cargo.toml"), "w").write(
         "[package]\nname = \"replay\"\nversion = \"0.0.0\"\nedition = \"2021\"\n[dependencies]\nenum-tools = { path = \"%s\" }\n[workspace]\n" % REPO)
     shutil.copy(os.path.join(REPO, "Cargo.lock"), os.path.join(root, "Cargo.lock"))
-    open(os.path.join(root, ".cargo", "config.toml"), "w").write("[net]\noffline = true\n[build]\nrustflags = [\"--cap-lints\", \"allow\"]\n")
+    open(os.path.join(root, ".cargo", "config.toml"), "w").write("[net]\noffline = true\n")
     open(os.path.join(root, "src", "lib.rs"), "w").write("#![allow(warnings)]\nuse ::enum_tools::EnumTools;\n" + r["rust"] + "\n")
     rc, msgs, err = run_rt.cargo_json(root, ["--lib"])
     accepted = rc == 0
